@@ -25,6 +25,35 @@ impl FunctionSig {
     pub fn is_variadic(&self) -> bool { self.variadic }
     /*ABI_FN*/
 }
+
+// ---- where the ABI is consumed: the `let abi = match signature.abi(..)` statement of Function::codegen, impl TryToRustTy for FunctionSig,
+// ---- and the real impl quote::ToTokens for ClangAbi (ir/function.rs) -----------------------------------------------------------
+pub mod error { pub use super::crate_codegen_error::*; }
+use error::Error;
+pub mod proc_macro2 { #[derive(Default)] pub struct TokenStream { pub abi: Option<super::Abi> } }
+pub mod quote { pub trait ToTokens { fn to_tokens(&self, tokens: &mut super::proc_macro2::TokenStream); } }
+impl quote::ToTokens for Abi { fn to_tokens(&self, tokens: &mut proc_macro2::TokenStream) { tokens.abi = Some(*self); } }
+/*CLANG_ABI_TOTOKENS*/
+pub mod syn {
+    pub struct Type(pub Option<super::Abi>);
+    macro_rules! parse_quote_ { (unsafe extern # $abi:ident fn ( # ( # $args:ident ) , * ) # $ret:ident) => {{
+        let mut t = crate::proc_macro2::TokenStream::default(); crate::quote::ToTokens::to_tokens(&$abi, &mut t); crate::syn::Type(t.abi) }} }
+    pub(crate) use parse_quote_ as parse_quote;
+}
+pub mod utils { use super::*; pub fn fnsig_return_ty(_: &BindgenContext, _: &FunctionSig) {} pub fn fnsig_arguments(_: &BindgenContext, _: &FunctionSig) {} }
+pub struct Item; impl Item { pub fn location(&self) -> Option<()> { None } }
+fn unsupported_abi_diagnostic(_: &str, _: bool, _: Option<()>, _: &BindgenContext, _: &Error) {}
+impl FunctionSig { pub fn name(&self) -> &str { &self.name } }
+pub trait TryToRustTy { type Extra; fn try_to_rust_ty(&self, ctx: &BindgenContext, extra: &Self::Extra) -> error::Result<syn::Type>; }
+/*TRY_TO_RUST_TY*/
+#[derive(Debug)] pub struct Function;
+impl Function {
+    /// the statement `let abi = match signature.abi(ctx, Some(name)) { .. };` of Function::codegen; None = the function gets no binding
+    pub fn codegen_abi(&self, ctx: &BindgenContext, signature: &FunctionSig, name: &str, canonical_name: &str, item: &Item) -> Option<ClangAbi> {
+        /*FN_ABI_STMT*/
+        Some(abi)
+    }
+}
 #[cfg(kani)]
 mod proofs {
     use super::*; use clang_sys::*;
@@ -36,6 +65,23 @@ mod proofs {
             else if cc == CXCallingConv_X86ThisCall { Some(Abi::ThisCall) } else if cc == CXCallingConv_X86VectorCall || cc == CXCallingConv_AArch64VectorCall { Some(Abi::Vectorcall) }
             else if cc == CXCallingConv_AAPCS { Some(Abi::Aapcs) } else if cc == CXCallingConv_X86_64Win64 { Some(Abi::Win64) } else { None };
         match (r, want) { (ClangAbi::Known(a), Some(w)) => assert!(a == w, "calling convention mapped to a different ABI"), (ClangAbi::Unknown(c), None) => assert!(c == cc), _ => assert!(false, "calling convention known/unknown status differs from the table") }
+    }
+    /// C12: whatever calling convention libclang reports, code generation binds the function / function pointer or skips it - it never panics
+    #[kani::proof] #[kani::unwind(8)]
+    fn any_calling_convention_is_bound_or_skipped_never_a_panic() {
+        let cc: u32 = kani::any();
+        let f = Features { thiscall_abi: kani::any(), vectorcall_abi: kani::any(), c_unwind_abi: kani::any(), abi_efiapi: kani::any() };
+        let ctx = BindgenContext { o: Options { abi_overrides: Overrides { a: [(Abi::C, RegexSet { for_param: false, for_own: false }), (Abi::C, RegexSet { for_param: false, for_own: false })], n: 0 }, f } };
+        let sig = FunctionSig { name: String::from("own"), abi: get_abi(cc), variadic: kani::any() };
+        if kani::any() {
+            let r = Function.codegen_abi(&ctx, &sig, "param", "param", &Item);
+            if let Some(a) = r { assert!(matches!(a, ClangAbi::Known(_)), "a function is bound with a calling convention Rust cannot name"); }
+            kani::cover!(r.is_none(), "function skipped");
+        } else {
+            let r = sig.try_to_rust_ty(&ctx, &Item);
+            if let Ok(t) = r { assert!(t.0.is_some(), "function pointer type without an ABI string"); }
+        }
+        core::mem::forget(sig);
     }
     fn any_abi() -> Abi { let abis = [Abi::C, Abi::Stdcall, Abi::EfiApi, Abi::Fastcall, Abi::ThisCall, Abi::Vectorcall, Abi::Aapcs, Abi::Win64, Abi::CUnwind, Abi::System]; let i: usize = kani::any(); kani::assume(i < 10); abis[i] }
     #[kani::proof] #[kani::unwind(8)]
@@ -52,7 +98,9 @@ mod proofs {
         let m = |k: usize| if by_param { ctx.o.abi_overrides.a[k].1.for_param } else { ctx.o.abi_overrides.a[k].1.for_own };
         let chosen = if n >= 1 && m(0) { ClangAbi::Known(ctx.o.abi_overrides.a[0].0) } else if n >= 2 && m(1) { ClangAbi::Known(ctx.o.abi_overrides.a[1].0) } else { own };
         let blocked = match chosen { ClangAbi::Known(Abi::ThisCall) => !f.thiscall_abi, ClangAbi::Known(Abi::Vectorcall) => !f.vectorcall_abi, ClangAbi::Known(Abi::CUnwind) => !f.c_unwind_abi, ClangAbi::Known(Abi::EfiApi) => !f.abi_efiapi,
-            ClangAbi::Known(Abi::Win64) => sig.variadic, _ => false };
+            ClangAbi::Known(Abi::Win64) => sig.variadic,
+            ClangAbi::Unknown(_) => true,   // a convention Rust cannot name is never let through (it used to be, and code generation then panicked: finding F12)
+            _ => false };
         match r { Ok(a) => assert!(!blocked && a == chosen, "wrong ABI chosen, or an ABI the Rust target lacks was let through"), Err(_) => assert!(blocked, "ABI rejected although the Rust target has it") }
         core::mem::forget(sig);
     }
